@@ -170,8 +170,9 @@ Proof. reflexivity. Qed.
 Lemma run_single cs : forallb returns cs = true -> single (run cs) = true.
 Proof.
   induction cs as [|c r IH]; cbn; [reflexivity|].
-  destruct c as [|st e ret]; cbn; [exact IH|].
-  destruct ret; [reflexivity | discriminate].
+  destruct c as [|st e ret|f fatal ret]; cbn; [exact IH| |].
+  - destruct ret; [reflexivity | discriminate].
+  - destruct ret; [|discriminate]. destruct f; [|exact IH]. destruct fatal; reflexivity.
 Qed.
 
 (* what follows a failed, returning check is never executed *)
@@ -179,8 +180,36 @@ Lemma run_stops pre st c post :
   forallb passes pre = true -> run (pre ++ CFail st c true :: post) = OResp st c.
 Proof.
   induction pre as [|x r IH]; cbn; [reflexivity|].
-  destruct x; cbn; [exact IH | discriminate].
+  destruct x as [| |f fatal ret]; cbn; [exact IH | discriminate |].
+  destruct f; [discriminate | exact IH].
 Qed.
+
+(* the same for a failed storage call *)
+Lemma run_stops_store pre post :
+  forallb passes pre = true -> run (pre ++ CStore true true true :: post) = OFault.
+Proof.
+  induction pre as [|x r IH]; cbn; [reflexivity|].
+  destruct x as [| |f fatal ret]; cbn; [exact IH | discriminate |].
+  destruct f; [discriminate | exact IH].
+Qed.
+
+Lemma xchecks_from_return i k l : forallb snd l = true -> forallb returns (xchecks_from i k l) = true.
+Proof.
+  revert i; induction l as [|[fatal r] t IH]; intros i H; cbn in *; [reflexivity|].
+  apply andb_true_iff in H as [H1 H2]. rewrite H1. now apply IH.
+Qed.
+
+Lemma xchecks_return x : forallb returns (xchecks true x) = true.
+Proof.
+  apply xchecks_from_return. destruct x as [e ep k]. destruct e, ep; reflexivity.
+Qed.
+
+Lemma xhandler_single x : single (xhandler true x) = true.
+Proof. apply run_single, xchecks_return. Qed.
+
+Lemma xhandler_unfixed_continues :
+  xhandler false {| x_entry := ViaProvider; x_ep := XRevokeRT; x_fault := 2 |} = OContinued.
+Proof. reflexivity. Qed.
 
 Lemma chk_returns b st c : returns (chk b st c) = true.
 Proof. destruct b; reflexivity. Qed.
@@ -190,9 +219,9 @@ Proof. unfold parse_step. destruct a, b, c; reflexivity. Qed.
 
 Lemma checks_return s : forallb returns (checks true s) = true.
 Proof.
-  destruct s as [e ep fo b key cid].
-  unfold checks, legacy_fn, legacy_server, ws_client, client_id_from_request.
-  destruct e, ep; cbn [sh_entry sh_ep sh_form_ok sh_basic sh_key sh_client_id forallb app];
+  destruct s as [e ep fo b key cid flt].
+  unfold checks, prechecks, legacy_fn, legacy_server, ws_client, client_id_from_request.
+  destruct e, ep; cbn [sh_entry sh_ep sh_form_ok sh_basic sh_key sh_client_id sh_fault forallb app returns andb];
     rewrite ?chk_returns, ?parse_step_returns; try reflexivity;
     destruct key; reflexivity.
 Qed.
@@ -202,7 +231,7 @@ Proof. apply run_single, checks_return. Qed.
 
 Lemma handler_unfixed_panics :
   handler false {| sh_entry := ViaProvider; sh_ep := ECode; sh_form_ok := true; sh_basic := BBadId;
-                   sh_key := true; sh_client_id := false |} = OPanic.
+                   sh_key := true; sh_client_id := false; sh_fault := false |} = OPanic.
 Proof. reflexivity. Qed.
 
 (* ---- layer (d) ---- *)
@@ -236,11 +265,12 @@ Proof. reflexivity. Qed.
 (* ---- central theorem ---- *)
 Lemma spec_model i : spec i (model i) = true.
 Proof.
-  destruct i as [d j t|k tok t|s|e c q|h a e t|n amount dash]; cbn.
+  destruct i as [d j t|k tok t|s|x|e c q|h a e t|n amount dash]; cbn.
   - pose proof (decode_total t d j) as H. destruct (decode t d j); try reflexivity. now elim H.
   - pose proof (verify_total (time_of t) (lang_of t) k tok) as H.
     destruct (verify _ _ true true k tok); try reflexivity. now elim H.
   - apply handler_single.
+  - apply xhandler_single.
   - reflexivity.
   - pose proof (call_total (time_of t) (lang_of t) h a e) as H.
     destruct (call _ _ true h a e); try reflexivity. now elim H.
@@ -249,9 +279,9 @@ Qed.
 
 Example spec_model_nonvacuous :
   wf (IHandler {| sh_entry := Direct; sh_ep := ERefresh; sh_form_ok := false; sh_basic := BBadSecret;
-                  sh_key := true; sh_client_id := true |}) = true
+                  sh_key := true; sh_client_id := true; sh_fault := true |}) = true
   /\ model (IHandler {| sh_entry := Direct; sh_ep := ERefresh; sh_form_ok := false; sh_basic := BBadSecret;
-                        sh_key := true; sh_client_id := true |}) = OHandler (OResp 400 EInvalidRequest).
+                        sh_key := true; sh_client_id := true; sh_fault := true |}) = OHandler (OResp 400 EInvalidRequest).
 Proof. split; reflexivity. Qed.
 
 (* ---- the statements of props/C09.v ---- *)
@@ -276,15 +306,23 @@ Lemma verifiers_unguarded_refuted :
 Proof. intros f g. do 2 eexists. apply verify_unguarded_panics. Qed.
 
 Lemma handlers_total :
-  forall s : shape, match handler true s with OResp _ _ | OGrant => True | _ => False end.
+  (forall s : shape, match handler true s with OResp _ _ | OGrant | OFault => True | _ => False end) /\
+  (forall x : xshape, match xhandler true x with OResp _ _ | OGrant | OFault => True | _ => False end).
 Proof.
-  intro s. pose proof (handler_single s) as H. destruct (handler true s); cbn in H; try discriminate; exact I.
+  split.
+  - intro s. pose proof (handler_single s) as H. destruct (handler true s); cbn in H; try discriminate; exact I.
+  - intro x. pose proof (xhandler_single x) as H. destruct (xhandler true x); cbn in H; try discriminate; exact I.
 Qed.
 
 Lemma error_then_stop :
   (forall s : shape, forallb returns (checks true s) = true) /\
-  (forall pre st c post, forallb passes pre = true -> run (pre ++ CFail st c true :: post) = OResp st c).
-Proof. split; [exact checks_return | exact run_stops]. Qed.
+  (forall x : xshape, forallb returns (xchecks true x) = true) /\
+  (forall pre st c post, forallb passes pre = true -> run (pre ++ CFail st c true :: post) = OResp st c) /\
+  (forall pre post, forallb passes pre = true -> run (pre ++ CStore true true true :: post) = OFault).
+Proof. repeat split; [exact checks_return | exact xchecks_return | exact run_stops | exact run_stops_store]. Qed.
+
+Lemma revoke_unfixed_refuted : exists x, xhandler false x = OContinued.
+Proof. eexists. exact xhandler_unfixed_continues. Qed.
 
 Lemma handlers_unfixed_refuted : exists s, handler false s = OPanic.
 Proof. eexists. exact handler_unfixed_panics. Qed.
